@@ -636,6 +636,12 @@ theorem emit_writes : ∀ (op : Host) (m m' : Mem) (cs : List PCmd), Completed o
     intro m m' cs hc h
     simp only [emit] at h
     exact ih _ _ _ hc h
+  | epr evs =>
+    intro m m' cs _ h
+    simp only [emit] at h
+    split at h
+    · cases h
+    · cases h; intro c hc; cases hc
 
 
 end NQ.Sdk
